@@ -86,7 +86,7 @@ def vsample(run):
 
 # ---- C11 ---------------------------------------------------------------------------------------------
 RANK_POOLS = {"int": [1, 2, 3], "float": [0.5, 1.5, float("nan")], "str": ["a", "b", ""], "date": POOLS["date"] + [np.datetime64("2021-01-01")],
-              "obj": [None, 1, 2],
+              "obj": [None, 9, 10],      # str() order (10 before 9) differs from the values' own order
               # strings of 50+ characters are ranked without the fixed-width shortcut of _optimize_for_argsort
               "longstr": ["x" * 50 + "a", "x" * 50 + "b", ""]}
 
@@ -171,7 +171,7 @@ def _uniq(v):
     return out
 
 
-vdriver("unique", none, lambda v: v.unique(), _uniq, kinds=("int", "float", "str", "date", "bool"))
+vdriver("unique", none, lambda v: v.unique(), _uniq, kinds=("int", "float", "str", "date", "bool", "objn", "fix", "td"))
 
 
 # ---- C10: construction from Python / NumPy scalars, the missing-value model, equal ---------------------
